@@ -70,9 +70,10 @@ func (c *FnCtx) bufferCall(x *ast.CallExpr, fobj *types.Func, recvExpr ast.Expr,
 		}
 		v := c.eval(a, st)
 		c.declareFun("strOfRune", []string{sInt}, sString)
-		r := "(strOfRune " + v + ")"
+		// SMT-LIB strings hold code points up to 0x2FFFF: exact for those, uninterpreted above
+		r := "(ite (and (<= 0 " + v + ") (< " + v + " 196608) (not (and (>= " + v + " 55296) (<= " + v + " 57343)))) (str.from_code " + v + ") (strOfRune " + v + "))"
 		if c.specMode == 0 {
-			st.addFact(implies(and("(<= 0 "+v+")", "(< "+v+" 128)"), eq(r, "(str.from_code "+v+")")))
+			r = c.name(st, "rs", r, sString)
 			st.addFact(and("(>= (str.len "+r+") 1)"))
 		}
 		return r
